@@ -18,11 +18,12 @@ Inductive stmt (expr : Type) :=
 | SLabelled (l : label) (s : stmt expr)
 | SThrow (e : expr)
 | STry (b : list (stmt expr)) (c : option (list (stmt expr))) (f : option (list (stmt expr)))
-| SSwitch (e : expr) (cases : list (option expr * list (stmt expr))).
+| SSwitch (e : expr) (cases : list (option expr * list (stmt expr)))
+| SForIn (target : expr) (src : expr) (body : list (stmt expr)).
 Arguments SExpr {expr}. Arguments SBlock {expr}. Arguments SIf {expr}. Arguments SWhile {expr}.
 Arguments SDoWhile {expr}. Arguments SFor {expr}.
 Arguments SBreak {expr}. Arguments SContinue {expr}. Arguments SReturn {expr}.
-Arguments SLabelled {expr}. Arguments SThrow {expr}. Arguments STry {expr}. Arguments SSwitch {expr}.
+Arguments SLabelled {expr}. Arguments SThrow {expr}. Arguments STry {expr}. Arguments SSwitch {expr}. Arguments SForIn {expr}.
 
 Inductive oval (val : Type) := OEmpty | OVal (v : val) | OBrk (l : label) | OCont (l : label) | ORet (v : val).
 Inductive ores (val : Type) := ONorm (o : oval val) | OExn (v : val) | OFuel.
@@ -45,6 +46,15 @@ Variable poll : st -> st * option val.
 Variable recatch : val -> val.
 (* strict equality of two values (calculateComparison STRICT_EQUAL / ES5 11.9.6) *)
 Variable veq : val -> val -> bool.
+(* for-in (12.6.4), the enumeration protocol shared by both semantics:
+   [enum] evaluates the subject expression and yields the property names to visit, grouped the way
+   cmplEvaluateNodeForInStatement walks them (the object's own enumerable names, then those of each object on its
+   prototype chain; nothing for undefined / null), or throws;
+   [live] says whether a name is still present when its turn comes (a property deleted before it is visited is not
+   visited); [bind] evaluates the left-hand side anew and assigns the name to it (it may throw) *)
+Variable enum : st -> expr -> st * (list (list val) + val).
+Variable live : st -> val -> bool.
+Variable bind : st -> expr -> val -> st * option val.
 Notation stmt := (stmt expr).
 Notation oval := (oval val). Notation ores := (ores val).
 Notation compl := (compl val). Notation sres := (sres val).
@@ -186,6 +196,43 @@ Fixpoint ofor (n : nat) (labels : list label) (test upd : option expr) (body : l
     end
   end.
 
+(* cmplEvaluateNodeForInStatement: an outer loop over the prototype chain, an inner enumeration callback per name;
+   break / return / an unmatched jump stop BOTH loops (obj = nil; return false); the flag says "stopped" *)
+Fixpoint okeys (labels : list label) (tgt : expr) (body : list stmt) (ks : list val)
+         (s : st) (L : list label) (acc : oval) : (st * list label * ores) * bool :=
+  match ks with
+  | [] => ((s, L, ONorm acc), false)
+  | k :: ks' =>
+    if live s k then
+      match bind s tgt k with
+      | (s1, Some x) => ((s1, L, OExn x), true)
+      | (s1, None) =>
+        match olist s1 L OEmpty body with
+        | (s2, L2, ONorm o) =>
+          match o with
+          | OBrk t => if mem t labels then ((s2, L2, ONorm acc), true) else ((s2, L2, ONorm o), true)
+          | OCont t => if mem t labels then okeys labels tgt body ks' s2 L2 acc else ((s2, L2, ONorm o), true)
+          | ORet _ => ((s2, L2, ONorm o), true)
+          | OEmpty => okeys labels tgt body ks' s2 L2 acc
+          | OVal _ => okeys labels tgt body ks' s2 L2 o
+          end
+        | r => (r, true)
+        end
+      end
+    else okeys labels tgt body ks' s L acc
+  end.
+Fixpoint olevels (labels : list label) (tgt : expr) (body : list stmt) (lv : list (list val))
+         (s : st) (L : list label) (acc : oval) : st * list label * ores :=
+  match lv with
+  | [] => (s, L, ONorm acc)
+  | ks :: lv' =>
+    match okeys labels tgt body ks s L acc with
+    | (r, true) => r
+    | ((s', L', ONorm acc'), false) => olevels labels tgt body lv' s' L' acc'
+    | (r, false) => r
+    end
+  end.
+
 Definition oblock (s0 : st) (L : list label) (l : list stmt) : st * list label * ores :=
   match olist s0 [] OEmpty l with
   | (s1, L1, ONorm (OBrk t)) => if mem t L then (s1, L1, ONorm OEmpty) else (s1, L1, ONorm (OBrk t))
@@ -295,6 +342,11 @@ Fixpoint exec_o (fuel : nat) (s0 : st) (L : list label) (s : stmt) {struct fuel}
             end
           end
         end
+    | SForIn tgt src body =>
+        match enum s0 src with
+        | (s1, inr x) => (s1, [], OExn x)
+        | (s1, inl lv) => olevels (exec_o fuel) (L ++ [0]) tgt body lv s1 [] OEmpty
+        end
     end
     end
   end.
@@ -390,6 +442,28 @@ Fixpoint sfor (n : nat) (labels : list label) (test upd : option expr) (body : l
                 end
     | None => run_body s0
     end
+  end.
+(* 12.6.4: one flat enumeration; the statement is in the label set *)
+Fixpoint skeys (labels : list label) (tgt : expr) (body : list stmt) (ks : list val) (s : st) : st * sres :=
+  match ks with
+  | [] => (s, SDone CNormal)
+  | k :: ks' =>
+    if live s k then
+      match bind s tgt k with
+      | (s1, Some x) => (s1, SDone (CThrow x))
+      | (s1, None) =>
+        match slist s1 body with
+        | (s2, SDone c) =>
+          match c with
+          | CBreak t => if mem t labels then (s2, SDone CNormal) else (s2, SDone c)
+          | CContinue t => if mem t labels then skeys labels tgt body ks' s2 else (s2, SDone c)
+          | CNormal => skeys labels tgt body ks' s2
+          | _ => (s2, SDone c)
+          end
+        | r => r
+        end
+      end
+    else skeys labels tgt body ks' s
   end.
 End SpecIter.
 
@@ -492,6 +566,11 @@ Fixpoint exec_s (fuel : nat) (s0 : st) (LS : list label) (s : stmt) {struct fuel
             end
           end
         end
+    | SForIn tgt src body =>
+        match enum s0 src with
+        | (s1, inr x) => (s1, SDone (CThrow x))
+        | (s1, inl lv) => skeys (exec_s fuel) (LS ++ [0]) tgt body (concat lv) s1
+        end
     end
     end
   end.
@@ -499,6 +578,7 @@ Fixpoint exec_s (fuel : nat) (s0 : st) (LS : list label) (s : stmt) {struct fuel
 End Sem.
 Arguments exec_o {st val expr}. Arguments exec_s {st val expr}.
 Arguments find_case {st val expr}. Arguments default_index {expr}. Arguments bodies {expr}. Arguments body_from {expr}. Arguments switch_target {expr}.
+Arguments okeys {st val expr}. Arguments olevels {st val expr}. Arguments skeys {st val expr}.
 Arguments olist {st val expr}. Arguments owhile {st val expr}. Arguments odowhile {st val expr}. Arguments ofor {st val expr}. Arguments sdowhile {st val expr}. Arguments sfor {st val expr}. Arguments oblock {st val expr}.
 Arguments slist {st val expr}. Arguments ocatch {st val expr}. Arguments ofinally {st val expr}. Arguments scatch {st val expr}. Arguments sfinally {st val expr}. Arguments swhile {st val expr}.
 Arguments is_res {val}.
